@@ -27,7 +27,7 @@ Proof.
   intros HI H. unfold insert_doc in H.
   destruct d as [| | | | | | | fs |]; try (fin H; split; [assumption|split; [discriminate|auto]]).
   set (c0id := match assoc "_id" fs with
-               | Some i => (c, fs, i)
+               | Some i => (c, fs, patch i)
                | None => (mkColl (docs c) (idx c) (forced c) (next_oid c + 1) (now c) (odocs c),
                           fs ++ [("_id", VOid (next_oid c))], VOid (next_oid c))
                end) in H.
@@ -101,9 +101,9 @@ Proof.
   destruct (ensure_uniques c1 d') as [touched|e].
   - rewrite (expire_if_no_ttl touched c1 (proj1 HI1)).
     destruct multi; [apply IH; exact HI1|exact HI1].
-  - destruct e; try exact HI1.
-    rewrite (expire_no_ttl c1 (proj1 HI1)). simpl.
-    apply Inv_with_docs; [exact HI1|]. apply knd_store_set. exact (proj2 HI1).
+  - destruct e; try exact HI1;
+    (rewrite (expire_no_ttl c1 (proj1 HI1)); simpl;
+     apply Inv_with_docs; [exact HI1|]; apply knd_store_set; exact (proj2 HI1)).
 Qed.
 
 Lemma update_inv pre5 c f u multi upsert : Inv c -> Inv (fst (update pre5 c f u multi upsert)).
